@@ -439,6 +439,16 @@ func TestReplay(t *testing.T) {
 		if vi.Meta["version"] != "" && vi.Meta["version"] != v.String() {
 			continue
 		}
+		if vi.Meta["many"] != "" {
+			var li, k int
+			fmt.Sscan(vi.Meta["many_list"], &li)
+			fmt.Sscan(vi.Meta["boundary"], &k)
+			if res := checkMany(src, v, li, k, strings.Split(vi.Meta["many"], "\x00")); res.clause != "" {
+				harness.Failf(t, "many-malformed/"+res.clause, src, vi.Meta, "%s", res.msg)
+				return
+			}
+			continue
+		}
 		if vi.Meta["list_index"] != "" {
 			// an inserted-statement case: src is the clean program, the insertion is in the meta data
 			var in insertion
